@@ -412,6 +412,17 @@ pub fn many_sizes_closure(ctx: &mut Ctx, prop: &str, oracles: u32, clauses: u32,
     }
 }
 
+/// chains of three colliding keys across the 16 KiB boundary (capped): a record whose predecessor has to
+/// move while its own link is rewritten (cascading re-link)
+pub fn three_key_seeds(ctx: &mut Ctx, prop: &str, oracles: u32, clauses: u32, secs: f64) {
+    let specs3 = vec![
+        crate::props_c08::SeedSpec { file: "val", boundary: 16 * 1024, eps: 16, free_slots: 0, val_pad: 0 },
+        crate::props_c08::SeedSpec { file: "key", boundary: 16 * 1024, eps: 16, free_slots: 0, val_pad: 0 },
+        crate::props_c08::SeedSpec { file: "key", boundary: 16 * 1024, eps: 0, free_slots: 2, val_pad: 0 },
+    ];
+    crate::props_c08::seeded_group(ctx, prop, oracles, clauses, 3, vec![3, 200], &specs3, 60_000, secs);
+}
+
 /// the key half of the class ladder alone
 pub fn class_ladder_keys(ctx: &mut Ctx, prop: &str, oracles: u32, clauses: u32, reopen: bool, step: usize) {
     let seed = ctx.seed;
@@ -490,6 +501,7 @@ pub fn c01(tier: &str, seed: u64) -> i32 {
         // three keys: one can sit in a low freed slot and point to one beyond the boundary
         let specs200 = vec![crate::props_c08::SeedSpec { file: "key", boundary: 200 * 1024, eps: 0, free_slots: 2, val_pad: 1201 }];
         crate::props_c08::seeded_group(&mut ctx, "C01", O_API, 0, 3, vec![3], &specs200, 30_000, 6.0);
+        three_key_seeds(&mut ctx, "C01", O_API, 0, 3.0);
         // a table size that is not a power of two is requested (the table really has 16 buckets)
         let a = &alphas_small()[0];
         let mut cfg = make_cfg("C01", KtId::Bytes, 16, a, seed);
@@ -509,6 +521,10 @@ pub fn c01(tier: &str, seed: u64) -> i32 {
     if ctx.run.violations.is_empty() {
         let step = if ctx.thorough() { 1 } else { 4 };
         class_ladder(&mut ctx, "C01", O_API, 0, false, step);
+        if !ctx.thorough() && ctx.run.violations.is_empty() {
+            // the key half is cheap: every pair of adjacent key slot classes in the quick tier too
+            class_ladder_keys(&mut ctx, "C01", O_API, 0, false, 1);
+        }
     }
     crate::engine_b::c01_live(&mut ctx);
     if ctx.run.violations.is_empty() && (ctx.thorough() || std::env::var("ABYV_DEV_PASS").is_ok()) && ctx.use_dev_workers() {
@@ -535,6 +551,9 @@ pub fn c02(tier: &str, seed: u64) -> i32 {
             crate::props_c08::SeedSpec { file: "key", boundary: 128 * 1024, eps: 0, free_slots: 2, val_pad: 1200 },
         ];
         crate::props_c08::seeded_group(&mut ctx, "C02", O_API | O_REOPEN, 0, 2, vec![3, 200], &specs, 60_000, 10.0);
+        let specs200 = vec![crate::props_c08::SeedSpec { file: "key", boundary: 200 * 1024, eps: 0, free_slots: 2, val_pad: 1201 }];
+        crate::props_c08::seeded_group(&mut ctx, "C02", O_API | O_REOPEN, 0, 3, vec![3], &specs200, 30_000, 6.0);
+        three_key_seeds(&mut ctx, "C02", O_API | O_REOPEN, 0, 3.0);
     }
     if ctx.run.violations.is_empty() {
         // the same small closure once more with every state expanded by a freshly spawned process
@@ -802,6 +821,7 @@ pub fn c06(tier: &str, seed: u64) -> i32 {
             crate::props_c08::SeedSpec { file: "key", boundary: 128 * 1024, eps: 0, free_slots: 2, val_pad: 1200 },
         ];
         crate::props_c08::seeded_group(&mut ctx, "C06", o, clauses, 2, vec![3, 200], &specs, 60_000, 10.0);
+        three_key_seeds(&mut ctx, "C06", o, clauses, 3.0);
     }
     let rule = format!("{RULE_A}; on every state: slots tile .key/.val from 192 to EOF, every slot live-once xor free-once, free lists acyclic and class-correct, statistics calls terminate; on every transition: a file grows only if no slot that was free before and after the call is suitable (same class below 1024, any member >= the size on the shared list), and the slot count per slot size stays <= keys+1; closure reached = the reachable image set (hence file size) is finite over all histories of the alphabet; non-trivial = transitions after which a file grew plus states with a non-empty free list");
     ctx.finish_model_checking(&rule, &["key_file_grew", "val_file_grew", "states_with_nonempty_free_list"])
@@ -954,6 +974,15 @@ pub fn c18(tier: &str, seed: u64) -> i32 {
         cfg.oracles = O_DOUBLE | O_XPROC;
         let starts: Vec<Start> = empty_start(&mut ctx, &cfg).into_iter().collect();
         run_closure(&mut ctx, &format!("{} [bytes, {n} bucket(s)]", a.label), &cfg, starts, 100_000, 30.0);
+    }
+    {
+        // keys whose records fill their 16-byte slot exactly, each the tail of its own chain, with value
+        // offsets beyond 1 KiB: a read that positions itself a byte too far would extend the key file
+        let a = Alpha { label: "2 keys of 11 bytes in different buckets x {5,1000}", colliding: vec![11], other: vec![11], vals: vec![5, 1000] };
+        let mut cfg = make_cfg("C18", KtId::Bytes, 8, &a, seed);
+        cfg.oracles = O_DOUBLE | O_XPROC;
+        let starts: Vec<Start> = empty_start(&mut ctx, &cfg).into_iter().collect();
+        run_closure(&mut ctx, &format!("{} [bytes]", a.label), &cfg, starts, 100_000, 30.0);
     }
     crate::engine_b::c18_live(&mut ctx);
     let rule = format!("{RULE_A}; every (state, letter) is executed three times: the primary run, a second run in another directory of the same process with read-only calls spliced before and after the update, and a third spliced run in a different worker process; the resulting files must be byte-identical; over the closure this covers every history of the alphabet; non-trivial = double executions compared");
